@@ -226,6 +226,10 @@ func ruleTabOnly(p *Prog, r *Report, c tabOnlyCfg) {
 					if _, isK := pair[1].(*ssa.Const); !isK {
 						continue
 					}
+					// a test of the validity of the rune (negative, above U+10FFFF) is not a range test on assigned runes
+					if k, ok := intConst(pair[1]); ok && (k <= 0 || k >= 0x10FFFF) {
+						continue
+					}
 					v := stripConv(pair[0])
 					if par, ok := v.(*ssa.Parameter); ok && len(f.Params) > 0 && par == f.Params[0] {
 						bad = in
